@@ -134,7 +134,8 @@ def run_invalid(rng, ctx, pytrs):
                        'T154-R97 Sec 1: ALL'])
     kind = rng.choice(['nonstr-text', 'bad-config-type', 'unknown-setting',
                        'bad-direction-config', 'bad-direction-keyword',
-                       'tract-bad-trs-type', 'config-ctor'])
+                       'tract-bad-trs-type', 'config-ctor',
+                       'bad-value-in-config', 'nonstr-direction-keyword'])
     case = {'invalid': kind, 'text': text}
     allowed, must_raise, fn = (), True, None
     if kind == 'nonstr-text':
@@ -191,6 +192,49 @@ def run_invalid(rng, ctx, pytrs):
         def fn():
             d = pytrs.PLSSDesc(t2, wait_to_parse=True)
             d.parse(**{f"default_{which}": val})
+    elif kind == 'bad-value-in-config':
+        # A setting that wants a number (or a bool) given something else.
+        # Rejecting it with ConfigError/ValueError is documented; accepting
+        # it is tolerated; any other exception -- at creation or when the
+        # tracts are parsed -- is not.
+        item = rng.choice(['qq_depth.x', 'qq_depth_max.x', 'qq_depth_min=deep',
+                           'qq_depth_min.2,qq_depth_max.three', 'qq_depth.1x'])
+        extra = rng.choice(['parse_qq', 'parse_qq,clean_qq', 'parse_qq,n,w'])
+        case['arg'] = f"{item},{extra}"
+        allowed = (ConfigError, ValueError)
+        must_raise = False
+        target = rng.choice(['plss', 'tract', 'assign-then-parse'])
+        case['target'] = target
+        t3 = 'T154N-R97W Sec 14: N/2NE/4, Lot 1'
+        if target == 'plss':
+            fn = lambda: pytrs.PLSSDesc(t3, config=case['arg'])
+        elif target == 'tract':
+            fn = lambda: pytrs.Tract('N/2NE/4, Lot 1', config=case['arg'])
+        else:
+            def fn():
+                d = pytrs.PLSSDesc(t3, wait_to_parse=True)
+                d.config = case['arg']
+                d.parse()
+    elif kind == 'nonstr-direction-keyword':
+        which = rng.choice(['ns', 'ew'])
+        val = rng.choice([5, 2.5, ['n'], ('w',), b'n'])
+        case['arg'] = f"default_{which}={val!r}"
+        allowed = (DefaultNSError, DefaultEWError)
+        must_raise = False
+        target = rng.choice(['Tract.from_twprgesec', 'TRS.from_twprgesec',
+                             'PLSSDesc.parse', 'find_twprge'])
+        case['target'] = target
+        kw = {f"default_{which}": val}
+        if target == 'Tract.from_twprgesec':
+            fn = lambda: pytrs.Tract.from_twprgesec('NE/4', 154, 97, 14, **kw)
+        elif target == 'TRS.from_twprgesec':
+            fn = lambda: pytrs.TRS.from_twprgesec(154, 97, 14, **kw)
+        elif target == 'PLSSDesc.parse':
+            fn = lambda: pytrs.PLSSDesc('T154-R97 Sec 14: NE/4',
+                                        wait_to_parse=True).parse(**kw)
+        else:
+            fn = lambda: pytrs.find_twprge('T154-R97 Sec 14', preprocess=True,
+                                           **kw)
     elif kind == 'tract-bad-trs-type':
         obj = rng.choice([5, 3.5, ['154n97w14'], b'154n97w14'])
         case['arg'] = repr(obj)
